@@ -13,6 +13,7 @@ package main
 import (
 	"fmt"
 	"net"
+	"net/http"
 	"runtime"
 	"strconv"
 	"strings"
@@ -127,6 +128,13 @@ func genG(r *vh.Rand) string {
 		case c < 54 && !released:
 			toks = append(toks, "R")
 			released = true
+		case c < 57:
+			toks = append(toks, "N")
+		case c < 72:
+			// http check: status sent by the server vs. the conf's expectation (exact code, 0 = any, 1..31 = class mask)
+			code := []int{200, 200, 204, 301, 302, 404, 500, 503, 100 + r.Intn(500)}[r.Intn(9)]
+			want := []int{200, 200, 0, 2, 6, 31, 16, 1, 404, 302, code, r.Intn(32), 600, 99}[r.Intn(14)]
+			toks = append(toks, fmt.Sprintf("P%d:%d:%d", code, want, sth))
 		default:
 			ok := "1"
 			if r.Chance(1, 3) {
@@ -152,6 +160,9 @@ func gen(r0 *vh.Rand) string {
 	case c < 6:
 		return genG(r)
 	case c < 7:
+		if r.Bool() {
+			return fmt.Sprintf("x %d:%d:%d:%d", r.Range(2, 16), r.Range(1, 4), r.Range(1, 8), r.Range(2, 5))
+		}
 		return fmt.Sprintf("x %d:%d:%d", r.Range(2, 16), r.Range(1, 4), r.Range(1, 8))
 	default:
 		return genM(r)
@@ -305,7 +316,8 @@ var (
 	barrierCh = make(chan struct{}, 16)
 )
 
-const waitMax = 3 * time.Second
+// bounded waits are watchdogs only (30 s): timing never decides a verdict on a healthy run
+const waitMax = 30 * time.Second
 
 func isChecker() bool {
 	buf := make([]byte, 8192)
@@ -345,11 +357,50 @@ func (g *gate) live() int {
 func mkConf(failNum, succNum int, port int, intervalMs int) *cluster_conf.BackendCheck {
 	schem := "tcp"
 	host := ":" + strconv.Itoa(port)
-	timeout := 2000
+	timeout := 30000
 	uri := "/"
 	sc := 200
 	return &cluster_conf.BackendCheck{Schem: &schem, Uri: &uri, Host: &host, StatusCode: &sc,
 		FailNum: &failNum, SuccNum: &succNum, CheckTimeout: &timeout, CheckInterval: &intervalMs}
+}
+
+// mkHTTPConf: http health check GET http://<backend addr>:<httpPort>/c/<code> with Host header verif.host:<httpPort>;
+// success is decided by cluster_conf.MatchStatusCode(code, want).
+func mkHTTPConf(succNum, code, want int) *cluster_conf.BackendCheck {
+	c := mkConf(1, succNum, httpPort, 1)
+	schem := "http"
+	uri := "/c/" + strconv.Itoa(code)
+	host := "verif.host:" + strconv.Itoa(httpPort)
+	c.Schem, c.Uri, c.Host, c.StatusCode = &schem, &uri, &host, &want
+	return c
+}
+
+var httpPort int
+
+// the http check target: answers /c/<code> with that status (3xx with a Location to /c/200: a client that follows
+// redirects would see 200), but only if the request is what the conf describes (GET, Host header = conf Host,
+// Accept header); anything else gets 418.  Every request is counted.
+func startHTTP() {
+	ln, err := net.Listen("tcp", "127.0.0.1:0")
+	if err != nil {
+		panic(err)
+	}
+	httpPort = ln.Addr().(*net.TCPAddr).Port
+	srv := &http.Server{Handler: http.HandlerFunc(func(w http.ResponseWriter, r *http.Request) {
+		atomic.AddInt64(&accepted, 1)
+		code := 418
+		if strings.HasPrefix(r.URL.Path, "/c/") && r.Method == "GET" &&
+			r.Host == "verif.host:"+strconv.Itoa(httpPort) && r.Header.Get("Accept") == "*/*" {
+			if v, err := strconv.Atoi(r.URL.Path[3:]); err == nil && v >= 100 && v <= 599 {
+				code = v
+			}
+		}
+		if code >= 300 && code < 400 {
+			w.Header().Set("Location", "/c/200")
+		}
+		w.WriteHeader(code)
+	})}
+	go srv.Serve(ln)
 }
 
 func dormant() *cluster_conf.BackendCheck { return mkConf(1, 1<<30, 1, 3600*1000) }
@@ -456,6 +507,7 @@ var once sync.Once
 func newCase() (*gate, *backend.BfeBackend) {
 	once.Do(func() {
 		startListener()
+		startHTTP()
 		backend.SetCheckConfFetcher(fetcher)
 	})
 	g := &gate{name: "verif-c06-" + strconv.FormatInt(atomic.AddInt64(&caseNo, 1), 10),
@@ -549,21 +601,41 @@ func execG(toks []string) (res string) {
 					}
 				}
 			}
-		case strings.HasPrefix(t, "H"):
+		case t == "N":
+			g.mu.Lock()
+			g.reqConf = nil // no health-check conf for the cluster: the failure is counted, the status stays
+			g.mu.Unlock()
+			b.OnFail(g.name)
+		case strings.HasPrefix(t, "H") || strings.HasPrefix(t, "P"):
 			f := strings.Split(t[1:], ":")
-			if len(f) != 2 {
-				return "bad-op"
-			}
-			v, err := strconv.Atoi(f[1])
-			if err != nil {
-				return "bad-op"
-			}
-			if parked {
+			var conf *cluster_conf.BackendCheck
+			if t[0] == 'H' {
+				if len(f) != 2 {
+					return "bad-op"
+				}
+				v, err := strconv.Atoi(f[1])
+				if err != nil {
+					return "bad-op"
+				}
 				port := 1
 				if f[0] == "1" {
 					port = lnPort
 				}
-				if !g.pass(mkConf(1, v, port, 1)) {
+				conf = mkConf(1, v, port, 1)
+			} else {
+				if len(f) != 3 {
+					return "bad-op"
+				}
+				code, e1 := strconv.Atoi(f[0])
+				want, e2 := strconv.Atoi(f[1])
+				v, e3 := strconv.Atoi(f[2])
+				if e1 != nil || e2 != nil || e3 != nil || code < 100 || code > 599 || want < 0 {
+					return "bad-op"
+				}
+				conf = mkHTTPConf(v, code, want)
+			}
+			if parked {
+				if !g.pass(conf) {
 					return strings.Join(append(out, "HANG:gate"), " ")
 				}
 				parked = false
@@ -585,12 +657,19 @@ func execG(toks []string) (res string) {
 
 func execX(spec string) (res string) {
 	f := strings.Split(spec, ":")
-	if len(f) != 3 {
+	if len(f) != 3 && len(f) != 4 {
 		return "bad-op"
 	}
 	nt, e1 := strconv.Atoi(f[0])
 	per, e2 := strconv.Atoi(f[1])
 	v, e3 := strconv.Atoi(f[2])
+	rounds := 1
+	if len(f) == 4 {
+		var e4 error
+		if rounds, e4 = strconv.Atoi(f[3]); e4 != nil || rounds < 1 || rounds > 16 {
+			return "bad-op"
+		}
+	}
 	if e1 != nil || e2 != nil || e3 != nil || nt < 1 || nt > 64 || per < 1 || per > 64 {
 		return "bad-op"
 	}
@@ -601,53 +680,57 @@ func execX(spec string) (res string) {
 	base := atomic.LoadInt64(&accepted)
 	arr := int64(0)
 	parked := false
+	var out []string
 	defer func() {
-		res = res + " " + g.finish(b, parked, arr)
+		res = strings.TrimSpace(res + " " + g.finish(b, parked, arr))
 	}()
 	g.mu.Lock()
 	g.reqConf = mkConf(v, 1, lnPort, 1)
 	g.mu.Unlock()
-	var wg sync.WaitGroup
-	start := make(chan struct{})
-	for i := 0; i < nt; i++ {
-		wg.Add(1)
-		go func() {
-			defer wg.Done()
-			<-start
-			for k := 0; k < per; k++ {
-				b.OnFail(g.name)
-				runtime.Gosched()
+	for round := 0; round < rounds; round++ {
+		var wg sync.WaitGroup
+		start := make(chan struct{})
+		for i := 0; i < nt; i++ {
+			wg.Add(1)
+			go func() {
+				defer wg.Done()
+				<-start
+				for k := 0; k < per; k++ {
+					b.OnFail(g.name)
+					runtime.Gosched()
+				}
+			}()
+		}
+		close(start)
+		wg.Wait()
+		if !parked && !b.Avail() {
+			if !g.waitQuiet(arr + 1) {
+				return strings.Join(append(out, "HANG:spawn"), " ")
 			}
-		}()
+			// give a (wrong) second checker the chance to show up
+			time.Sleep(2 * time.Millisecond)
+			if atomic.LoadInt64(&g.arrivals) > arr {
+				arr = atomic.LoadInt64(&g.arrivals)
+				parked = true
+			}
+		}
+		out = append(out, g.obs7(b, base))
+		if parked {
+			if !g.pass(mkConf(1, 1, lnPort, 1)) {
+				return strings.Join(append(out, "HANG:gate"), " ")
+			}
+			parked = false
+			if !g.waitQuiet(arr + 1) {
+				return strings.Join(append(out, "HANG:iteration"), " ")
+			}
+			if atomic.LoadInt64(&g.arrivals) > arr {
+				arr = atomic.LoadInt64(&g.arrivals)
+				parked = true
+			}
+		}
+		out = append(out, g.obs7(b, base))
 	}
-	close(start)
-	wg.Wait()
-	if nt*per >= v {
-		if !g.waitQuiet(1) {
-			return "HANG:spawn"
-		}
-		// give a (wrong) second checker the chance to show up
-		time.Sleep(2 * time.Millisecond)
-		if atomic.LoadInt64(&g.arrivals) > arr {
-			arr = atomic.LoadInt64(&g.arrivals)
-			parked = true
-		}
-	}
-	r1 := g.obs7(b, base)
-	if parked {
-		if !g.pass(mkConf(1, 1, lnPort, 1)) {
-			return r1 + " HANG:gate"
-		}
-		parked = false
-		if !g.waitQuiet(arr + 1) {
-			return r1 + " HANG:iteration"
-		}
-		if atomic.LoadInt64(&g.arrivals) > arr {
-			arr = atomic.LoadInt64(&g.arrivals)
-			parked = true
-		}
-	}
-	return r1 + " " + g.obs7(b, base)
+	return strings.Join(out, " ")
 }
 
 func exec(op string) string {
@@ -659,12 +742,12 @@ func exec(op string) string {
 	case "m":
 		return execM(f[1:])
 	case "g":
-		return vh.SafeTimeout(20*time.Second, func() string { return execG(f[1:]) })
+		return vh.SafeTimeout(120*time.Second, func() string { return execG(f[1:]) })
 	case "x":
 		if len(f) != 2 {
 			return "bad-op"
 		}
-		return vh.SafeTimeout(20*time.Second, func() string { return execX(f[1]) })
+		return vh.SafeTimeout(120*time.Second, func() string { return execX(f[1]) })
 	}
 	return "bad-op"
 }
